@@ -58,6 +58,13 @@ def main():
         f = re.findall(r"(\d+) failed", o)
         meta["tests_with_change"] = {"exit": rc, "passed": int(m[-1]) if m else None, "failed": int(f[-1]) if f else 0}
     res = {}
+    old = os.path.join(out, "meta.json")
+    if "--checks" in sys.argv and os.path.exists(old):
+        prev = json.load(open(old))
+        res = prev.get("checks", {})          # keep earlier verdicts of the checks not re-run now
+        for k in ("demo_with_change", "demo_without_change", "tests_with_change"):
+            if k in prev and k not in meta:
+                meta[k] = prev[k]
     for c in checks:
         rc, o = sh(f"./vf check {c} --tier quick", cwd=VERIF, env=dict(os.environ, KIO_REPO=wt), timeout=1800)
         viol = [ln for ln in o.splitlines() if ln.startswith("VIOLATION")]
